@@ -5,11 +5,11 @@ package main
 // (services.New*Server) over in-memory client shims instead of gRPC.
 
 import (
-	"os"
 	"context"
 	"fmt"
 	"io"
 	stdlog "log"
+	"os"
 	"sync"
 	"time"
 
